@@ -72,4 +72,57 @@ template <class EA, class EB> void run_ext_cmp(long caseno, Toks &tk) {
   std::printf("X %ld eq=%d ne=%d\n", caseno, (a == b) ? 1 : 0, (a != b) ? 1 : 0);
 }
 
+// ---- kind 3: views over user layouts ---------------------------------------------------------------------
+// every multi-index maps to offset 0 (required_span_size 1): a valid, non-unique mapping whose index space may be larger than any span;
+// the six observers answer fixed bits of CODE: is_unique bit 0, is_exhaustive bit 1, is_strided bit 2, is_always_unique bit 3,
+// is_always_exhaustive bit 4, is_always_strided bit 5
+template <unsigned CODE> struct layout_bits {
+  template <class E> class mapping {
+  public:
+    using extents_type = E; using index_type = typename E::index_type; using size_type = typename E::size_type;
+    using rank_type = typename E::rank_type; using layout_type = layout_bits;
+    constexpr mapping() noexcept = default;
+    constexpr mapping(const E &e) noexcept : e_(e) {}
+    constexpr const E &extents() const noexcept { return e_; }
+    template <class... I, class = std::enable_if_t<sizeof...(I) == E::rank()>> constexpr index_type operator()(I...) const noexcept { return 0; }
+    constexpr index_type required_span_size() const noexcept { return 1; }
+    constexpr bool is_unique() const noexcept { return (CODE >> 0) & 1; }
+    constexpr bool is_exhaustive() const noexcept { return (CODE >> 1) & 1; }
+    constexpr bool is_strided() const noexcept { return (CODE >> 2) & 1; }
+    static constexpr bool is_always_unique() noexcept { return (CODE >> 3) & 1; }
+    static constexpr bool is_always_exhaustive() noexcept { return (CODE >> 4) & 1; }
+    static constexpr bool is_always_strided() noexcept { return (CODE >> 5) & 1; }
+    constexpr index_type stride(rank_type) const noexcept { return 0; }
+    template <class OE> friend constexpr bool operator==(const mapping &a, const mapping<OE> &b) noexcept { return a.extents() == b.extents(); }
+  private:
+    E e_{};
+  };
+};
+// layout j answers, for observer k, bit j of k + 1
+constexpr unsigned bits_code(unsigned j) { unsigned c = 0; for (unsigned k = 0; k < 6; ++k) if (((k + 1) >> j) & 1) c |= 1u << k; return c; }
+template <class E, unsigned J> void view_flags(std::string &f, const E &e) {
+  using L = layout_bits<bits_code(J)>;
+  int dummy = 0;
+  const Kokkos::mdspan<int, E, L> v(&dummy, typename L::template mapping<E>(e));
+  f += v.is_unique() ? '1' : '0'; f += v.is_exhaustive() ? '1' : '0'; f += v.is_strided() ? '1' : '0';
+  f += v.is_always_unique() ? '1' : '0'; f += v.is_always_exhaustive() ? '1' : '0'; f += v.is_always_strided() ? '1' : '0';
+}
+// prog 3 t R pat*R vals*R
+template <class E> void run_ext_view(long caseno, Toks &tk) {
+  constexpr size_t R = E::rank();
+  tk.next(); tk.next(); tk.next(); tk.next(); for (size_t k = 0; k < R; ++k) tk.next();
+  const E e = from_all<E>(tk);
+  using L = layout_bits<0>;
+  int dummy = 0;
+  const Kokkos::mdspan<int, E, L> v(&dummy, typename L::template mapping<E>(e));
+  Out o;
+  o.field("sz", str_i128(to_i128(v.size())));
+  o.field("emp", v.empty() ? "1" : "0");
+  std::vector<i128> ex; for (size_t k = 0; k < R; ++k) ex.push_back(to_i128(v.extent(k)));
+  o.field("ext", Out::list(ex));
+  std::string f; view_flags<E, 0>(f, e); view_flags<E, 1>(f, e); view_flags<E, 2>(f, e);
+  o.field("fw", f);
+  std::printf("X %ld %s\n", caseno, o.s.c_str());
+}
+
 } // namespace drv
